@@ -95,6 +95,15 @@ template <typename T, int PC, int NC, int W, int H> static void t_pfm(const char
   VP_ENTRY vp_main_pfm_4f_##W##x##H() { t_pfm<math::vec4f, 4, 4, W, H>("PF4\n%i %i\n-1.0\n"); }
 SHAPES(PFM_E)
 
+// Histories: two images written one after the other by the same thread in the same format (second one narrower, wider,
+// or of equal size): each file must depend only on its own call's arguments - nothing carried over from the previous call.
+static void cap_reset() { Capture *c = vp_file(); c->open = 0; c->closed = 0; c->nprintf = 0; c->ndata = 0; c->fmt0 = ""; c->fmt1 = ""; }
+#define SEQ_PPM(n, G, W1, H1, W2, H2) VP_ENTRY vp_main_##n() { t_ppm<G, W1, H1>(); cap_reset(); t_ppm<G, W2, H2>(); }
+SEQ_PPM(ppm_seq_21_12, false, 2, 1, 1, 2) SEQ_PPM(ppm_seq_11_22, false, 1, 1, 2, 2) SEQ_PPM(pgm_seq_21_12, true, 2, 1, 1, 2) SEQ_PPM(pgm_seq_22_11, true, 2, 2, 1, 1)
+#define SEQ_PFM(n, T, PC, NC, F, W1, H1, W2, H2) VP_ENTRY vp_main_##n() { t_pfm<T, PC, NC, W1, H1>(F); cap_reset(); t_pfm<T, PC, NC, W2, H2>(F); }
+SEQ_PFM(pfm_f_seq_21_12, float, 1, 1, "Pf\n%i %i\n-1.0\n", 2, 1, 1, 2) SEQ_PFM(pfm_3f_seq_21_11, math::vec3f, 3, 3, "PF\n%i %i\n-1.0\n", 2, 1, 1, 1)
+SEQ_PFM(pfm_3fa_seq_21_12, math::vec3fa, 4, 3, "PF\n%i %i\n-1.0\n", 2, 1, 1, 2) SEQ_PFM(pfm_4f_seq_21_11, math::vec4f, 4, 4, "PF4\n%i %i\n-1.0\n", 2, 1, 1, 1)
+
 VP_ENTRY vp_main_open_fails()
 {
   vp_file()->fail_open = 1;
